@@ -763,3 +763,8 @@ MUTATIONS += [
     # a recorded pack size is ignored: the size is always derived from the blob list (wrong for packs with padding/foreign layout)... and vice versa: derived size forgets the 4-byte length field
     dict(id="C08-indexpack-size-uses-header-size", prop="C08", file="crates/core/src/repofile/indexfile.rs", old="            .unwrap_or_else(|| PackHeaderRef::from_index_pack(self).pack_size())", new="            .unwrap_or_else(|| PackHeaderRef::from_index_pack(self).size())"),
 ]
+
+HARMLESS += [
+    # decrypt_data with split_at instead of two range indexings, the length guard kept
+    dict(id="H-C04-decrypt-split-at", prop="C04", file="crates/core/src/crypto/aespoly1305.rs", old="        let nonce = Nonce::from_slice(&data[0..16]);\n        Aes256CtrPoly1305Aes::new(&self.0)\n            .decrypt(nonce, &data[16..])", new="        let (nonce, ciphertext) = data.split_at(16);\n        let nonce = Nonce::from_slice(nonce);\n        Aes256CtrPoly1305Aes::new(&self.0)\n            .decrypt(nonce, ciphertext)"),
+]
